@@ -67,6 +67,13 @@ func main() {
 			"budget_exhausted": r.BudgetExhausted, "max_scheduling_points": r.MaxPoints, "scheduling_points_executed": r.Transitions,
 			"distinct_outcomes": len(r.Outcomes), "executions_with_interleaving": r.InterleavedRuns,
 		}
+		if r.BoundCompleted < 0 {
+			delete(sc, "preemption_bound_completed")
+			delete(sc, "schedules_by_preemption_bound")
+			sc["mode"] = "no preemption bound, state-key pruning"
+			sc["all_interleavings_covered"] = r.Unbounded
+			sc["distinct_global_states"] = r.States
+		}
 		if len(r.SampleTrace) > 0 && len(sum.Scenarios) < 3 {
 			sc["sample_interleaved_trace"] = r.SampleTrace
 		}
@@ -315,7 +322,17 @@ func runC10(tier string, sum *props.SchedSummary) []vs.Result {
 			sum.Guards = append(sum.Guards, fmt.Sprintf("C10: scenario %q completed only preemption bound %d", r.Scenario, r.BoundCompleted))
 		}
 	}
-	return []vs.Result{res, resB, res2, res3}
+	out := []vs.Result{res, resB, res2, res3}
+	// every interleaving (no preemption bound) with state-key pruning, for the result oracles
+	allBudget := 30000
+	if tier == "thorough" {
+		allBudget = 2000000
+	}
+	for _, s := range []vs.Scenario{scA, scB, sc2, sc3} {
+		s.Name += " [all interleavings]"
+		out = append(out, vs.ExploreAll(s, allBudget))
+	}
+	return out
 }
 
 // ---------------------------------------------------------------- C16
@@ -342,7 +359,7 @@ func runC16(tier string, sum *props.SchedSummary) []vs.Result {
 	var results []vs.Result
 	bound, budget := 3, 20000
 	if tier == "thorough" {
-		bound, budget = 40, 60000 // more than the number of scheduling points: every interleaving, capped per pair by the budget
+		bound, budget = 5, 60000
 	}
 	seen := map[string]bool{}
 	interleavedAll := true
@@ -391,6 +408,8 @@ func runC16(tier string, sum *props.SchedSummary) []vs.Result {
 				interleavedAll = false
 			}
 			results = append(results, r)
+			sc.Name += " [all interleavings]"
+			results = append(results, vs.ExploreAll(sc, budget))
 		}
 	}
 	// three concurrent requests (join 1.0, join 1.1 from a second device, rejoin from the first) with a preemption bound
@@ -432,6 +451,8 @@ func runC16(tier string, sum *props.SchedSummary) []vs.Result {
 			b3 = 3
 		}
 		results = append(results, vs.Explore(sc, b3, budget*5))
+		sc.Name += " [all interleavings]"
+		results = append(results, vs.ExploreAll(sc, budget*5))
 	}
 	if !interleavedAll {
 		sum.Guards = append(sum.Guards, "C16: every request pair needs at least one schedule with interleaved task stages")
